@@ -85,7 +85,8 @@ class LogPaxosWorld(NetWorld):
         self.pre_slots = ()  # slots that held an accepted entry at some node when a later leader attempt began,
         #                      or that a Promise carried in its log_entries: the new leader was told about them
         self.promised_foreign = {}  # node -> highest ballot of ANOTHER node it has sent a Promise for
-        self.deposed_slots = ()  # slots for which a node sent an Accept at or below a foreign ballot it had promised
+        self.deposed_slots = ()  # slots for which a node sent an Accept under a foreign ballot (stamped with another node's
+        #                          ballot, or at/below a foreign ballot it had promised)
         self.slot_ballots = {}  # slot -> ballot numbers / nodes seen in Accepts for it
         self.own_assigned = {}  # (node, slot) -> command the node itself sent Accepts for
         self.passive_slots = ()  # slots a node reported decided with ITS OWN assigned entry on the word of another
@@ -259,9 +260,9 @@ class LogPaxosWorld(NetWorld):
                 # a LEADER promised another node's ballot, kept reporting is_leader, and went on issuing Accepts
                 return "takeover-leader-kept-leading-after-promise"
             if s in self.deposed_slots:
-                # a candidate promised another node's ballot, later its own stale Phase-1 quorum completed and it
-                # issued Accepts at or below the ballot it had promised
-                return "takeover-stale-phase1-quorum-after-promise"
+                # a node that had adopted another node's ballot (Promise, Heartbeat or Accept) issued Accepts under it:
+                # its own stale Phase-1 quorum completed afterwards, or it adopted the ballot without stepping down
+                return "takeover-accepts-issued-under-adopted-foreign-ballot"
             if s in self.pre_slots:
                 # the slot already held an accepted entry when the later leader began / a Promise carried it:
                 # the new leader was told and ignored it (known: recovery ignores promised logs)
@@ -300,7 +301,8 @@ class LogPaxosWorld(NetWorld):
             if b not in sb:
                 self.slot_ballots[slot] = tuple(sorted(sb | {b}))
             pf = self.promised_foreign.get(src)
-            if pf is not None and b <= pf:
+            if md["ballot_node"] != src or (pf is not None and b <= pf):
+                # an Accept stamped with another node's ballot, or at/below a foreign ballot the sender promised
                 if slot not in self.deposed_slots:
                     self.deposed_slots = tuple(sorted(set(self.deposed_slots) | {slot}))
                 if src in self.kept_leading and slot not in self.kept_slots:
